@@ -317,7 +317,6 @@ func checkHistory(ctx *pbt.Ctx, c HistCase) error {
 	}
 	tx := ref.ToLib(m)
 	fq := ref.FeeQuoteToLib(q)
-	lim := new(big.Int).Lsh(big.NewInt(1), 62)
 	ctx.Labelf("steps=%d", len(c.Steps))
 	nFund := 0
 	prevKind, lastFund := "start", ""
@@ -342,14 +341,8 @@ func checkHistory(ctx *pbt.Ctx, c HistCase) error {
 				ctx.Label("history-ended:transaction-no-longer-P2PKH-funded")
 				return nil
 			}
-			tot := new(big.Int).Add(ref.FeeSumIn(snap), ref.FeeSumOut(snap))
-			for _, b := range st.Batches {
-				for _, u := range b {
-					tot.Add(tot, new(big.Int).SetUint64(u.Sats))
-				}
-			}
-			if tot.Cmp(lim) > 0 {
-				ctx.Discard("totals too large")
+			if why := amountsOutside(cc); why != "" {
+				ctx.Discard("history leaves the domain: " + why)
 				return nil
 			}
 			want, err := runModel(cc)
@@ -471,6 +464,9 @@ func genHEdit(t *rapid.T, m ref.Tx) HStep {
 		st.B, st.U64 = genHOut(t)
 	case "osats":
 		st.U64 = rapid.Uint64Range(0, 1000000).Draw(t, "amount")
+		if rapid.IntRange(0, 5).Draw(t, "huge_amount") == 3 { // upper half of the uint64 range
+			st.U64, _ = genHugeAmount(t, "huge_v")
+		}
 	case "isats":
 		st.U64 = rapid.Uint64Range(0, 1000).Draw(t, "amount")
 	case "oappend":
